@@ -243,3 +243,13 @@ def float_constant_any(v: float) -> bool:
     if v != v or v in (float("inf"), float("-inf")):
         return False
     return ty == "double" and float(_unparen(txt)) == v
+
+
+def literal_kernel(s):
+    "the function every string position goes through (cpp_vars.cpp_string_literal), read back with the oracle's C++ literal lexer"
+    try:
+        from func_adl_xAOD.common.cpp_vars import cpp_string_literal
+    except ImportError:
+        return True          # the translator no longer has this function: nothing to say here (positions are checked through the pipeline)
+    from h_common import cpp_string_value
+    return cpp_string_value(cpp_string_literal(s)) == s
